@@ -1167,4 +1167,72 @@ theorem sel3_stepsOf_canon (cls : Cls) (kvs : List (Str × Val)) (p : Pos) (c : 
       rw [sel3_stepsOf_render]
       simp [renderPos, renderSeg, dropSlash, leadStr, slash]
 
+/-! ### the fan-out behind any spelling, string level -/
+
+/-- `toks' ++ [name[*], f]`: `toks'` spell the position of the dict whose `name` is the record list -/
+theorem sel3_star_find_key (root : Val) (rl : Bool) {toks' : List Str} {q : Pos} {cls : Cls} {kvs : List (Str × Val)}
+    (name f : Str) (lc : Cls) (rs : List Val) (hs : Spells toks' root q (.dict cls kvs)) (hname : PlainKey name) (hf : PlainKey f)
+    (hl : lookup name kvs = some (.list lc rs)) (hrs : ∀ r ∈ rs, isDict r = true)
+    (fuel : Nat) (hfuel : fuel ≥ 2 * toks'.length + rs.length + 5) :
+    Sel2Coll root rl (findD fuel root [] false true (toks' ++ [name ++ bracket ['*'], f]) (.at []) rl slash)
+      (somes (rs.map (fieldOf f))) := by
+  obtain ⟨w, hsf⟩ := hs.exF
+  have hpv := hs.getAt
+  obtain ⟨fuel', e', h1, h2, heq⟩ := find_walk root rl hsf [name ++ bracket ['*'], f] (by simp) fuel [] slash true rfl (by omega)
+  rw [heq]
+  obtain ⟨g, rfl⟩ : ∃ g, fuel' = g + 1 := ⟨fuel' - 1, by omega⟩
+  have hget : getAt root ([] ++ q ++ [.key name]) = some (.list lc rs) := by
+    rw [getAt_snoc]; simp [hpv, child, hl]
+  rw [find_keybr_step g root e' rl ([] ++ q) _ _ name ['*'] [f] cls kvs _ (by simpa using hpv)
+    (split_bracket name ['*'] (Or.inr hname) star_idxExpr) hname.ne hname.notUp hname.keyTok.notStar hl]
+  exact star_records root rl _ _ _ f lc rs hget hrs hf.keyTok split_star g false (by omega)
+
+/-- **`P[*]/f` and `P/f` behind any spelling of `P`**, string level -/
+theorem sel3_star_string (cls : Cls) (kvs : List (Str × Val)) (lead : Lead) (steps : List StepSp) (f : Str) (lc : Cls)
+    (rs : List Val) (d : Val) (hp : PlainSteps steps) (hne : steps ≠ [])
+    (hget : stepsGet (.dict cls kvs) steps = some (.list lc rs)) (hf : PlainKey f) (hrs : ∀ r ∈ rs, isDict r = true)
+    (fuel : Nat) (hfuel : fuel ≥ 2 * steps.length + rs.length + 5) :
+    ∀ xp ∈ [renderSp lead steps ++ bracket ['*'] ++ slash ++ f, renderSp lead steps ++ slash ++ f],
+      get fuel (.dict cls kvs) xp d
+        = (.dict cls kvs, .ok (if (somes (rs.map (fieldOf f))).isEmpty then d else .list .n0 (somes (rs.map (fieldOf f))))) ∧
+      getItem fuel (.dict cls kvs) xp
+        = (.dict cls kvs, if (somes (rs.map (fieldOf f))).isEmpty then .error .IndexError
+                          else .ok (.list .n0 (somes (rs.map (fieldOf f))))) ∧
+      first fuel (.dict cls kvs) xp d = (.dict cls kvs, .ok (firstOf (somes (rs.map (fieldOf f))) d)) := by
+  have hs3 := sel3_spells_steps steps _ _ hp hget
+  have hs := hs3.spells
+  have hlen := toksOf_length_le steps
+  have htne := toksOf_ne_nil steps hne
+  intro xp hxp
+  simp only [List.mem_cons, List.not_mem_nil, or_false] at hxp
+  rcases hxp with rfl | rfl
+  · have hxp : renderSp lead steps ++ bracket ['*'] ++ slash ++ f = renderSp lead steps ++ sel2Render [.br ['*'], .key f] := by
+      simp [sel2Render, sel2RenderSeg, slash]
+    have hgood : GoodG [.br ['*'], .key f] := ⟨sel2_gBr_star, hf.gKey, trivial⟩
+    rw [hxp]
+    have hq := sel3_sp_noQ cls kvs lead steps _ (sel2Render [.br ['*'], .key f]) hp hne hget
+    have hpc := sel3_sp_pathChar lead steps (sel2Render [.br ['*'], .key f]) '[' (by simp [sel2Render, sel2RenderSeg, bracket])
+      (Or.inr rfl)
+    rcases sel3_tokenize_sp_br lead steps _ _ hp hne hgood with htok | ⟨toks', name, ht, hname, htok⟩
+    · apply select_api cls kvs _ _ _ d fuel hq hpc htok
+      intro rl
+      exact star_spelled (.dict cls kvs) rl f hs htne hrs hf fuel (by omega) _ (Or.inl (by simp [sel2Toks]))
+    · apply select_api cls kvs _ _ _ d fuel hq hpc htok
+      intro rl
+      rw [ht] at hs3
+      obtain ⟨p', c', kvs', _, hs', hl⟩ := sel3_spells_snoc_key_inv name hname toks' _ _ _ hs3
+      have hl2 : toks'.length + 1 ≤ steps.length := by
+        have := congrArg List.length ht; simp at this; omega
+      have := sel3_star_find_key (.dict cls kvs) rl name f lc rs hs'.spells hname hf hl hrs fuel (by omega)
+      simpa [sel2Toks, Sel2Coll] using this
+  · have hxp : renderSp lead steps ++ slash ++ f = renderSp lead steps ++ sel2Render [.key f] := by
+      simp [sel2Render, sel2RenderSeg, slash]
+    have hgood : GoodG [.key f] := ⟨hf.gKey, trivial⟩
+    rw [hxp]
+    have hq := sel3_sp_noQ cls kvs lead steps _ (sel2Render [.key f]) hp hne hget
+    have hpc := sel3_sp_pathChar lead steps (sel2Render [.key f]) '/' (by simp [sel2Render, sel2RenderSeg]) (Or.inl rfl)
+    apply select_api cls kvs _ _ _ d fuel hq hpc (sel3_tokenize_sp_key lead steps _ _ hp hne hgood)
+    intro rl
+    exact star_spelled (.dict cls kvs) rl f hs htne hrs hf fuel (by omega) _ (Or.inr (by simp [sel2Toks]))
+
 end N0.XPath
